@@ -387,6 +387,34 @@ def _solver_options(fam_terms, time, ukind, k):
     return opts
 
 
+def h_qpe_reuse(env, fam, k, m):
+    """ONE TrotterSuzukiUnitary object handed to two QPESolvers with different register sizes (k, then k+1): the second
+    solver's read-out is certain and gives the same phase (m/2^k = 2m/2^(k+1))"""
+    from tangelo.algorithms.projective.qpe import QPESolver
+    from tangelo.toolboxes.unitary_generator import TrotterSuzukiUnitary
+    name, terms_of, n_state, basis, time = next(f for f in families(k) if f[0] == fam)
+    phi = m / 2 ** k if m else 1.0
+    u = TrotterSuzukiUnitary(_qop(terms_of(phi)), time=time, trotter_order=1, n_trotter_steps=1, n_steps_method="repeat")
+    vec = eigenvector(env, basis, n_state)
+    for kk, want_m in ((k, m), (k + 1, 2 * m)):
+        solver = QPESolver({"size_qpe_register": kk, "unitary": u, "backend_options": {"target": "cirq", "n_shots": None}})
+        solver.build()
+        circ = solver.circuit
+        n = max(circ.width, n_state + kk)
+        st = [R.ZERO() for _ in range(2 ** n)]
+        for i, a in enumerate(vec):
+            st[i << (n - n_state)] = a
+        out = R.run_gates(circ._gates, n, st)
+        probs = {}
+        for idx, a in enumerate(out):
+            bits = format(idx, f"0{n}b")[n_state:n_state + kk]
+            probs[bits] = probs.get(bits, R.ZERO()) + a * R.n_conj(a)
+        want_bits = format(want_m, f"0{kk}b")
+        for bits, p in sorted(probs.items()):
+            env.check_eq(p, 1 if bits == want_bits else 0,
+                         f"QPE[{fam}] with a shared TrotterSuzukiUnitary object, register of {kk} qubits: probability of outcome {bits} for phase {m}/2^{k}")
+
+
 def h_sv_order_keyword(env):
     """order keywords other than the two documented spellings: refused, or honoured with the meaning of their lower-case form"""
     from tangelo.linq.helpers.circuits.statevector import StateVector
@@ -634,6 +662,8 @@ def shapes(tier, seed):
                             continue
                     out.append(Shape(f"qpe/{fam}/k{k}/m{m}/{u}", h_qpe, dict(fam=fam, k=k, m=m, ukind=u), modules=MODS, group="qpe"))
                     out.append(Shape(f"iqpe/{fam}/k{k}/m{m}/{u}", h_iqpe, dict(fam=fam, k=k, m=m, ukind=u), modules=MODS, group="iqpe"))
+    for fam_, k_, m_ in (("Z0", 1, 1), ("Z0Z1", 2, 1), ("X0X1", 2, 3), ("Z0+Z1", 1, 1)):
+        out.append(Shape(f"qpe-reuse/{fam_}/k{k_}/m{m_}", h_qpe_reuse, dict(fam=fam_, k=k_, m=m_), modules=MODS, group="qpe"))
     out.append(Shape("canary/qpe/off-by-one", h_qpe, dict(fam="Z0Z1", k=2, m=1, ukind="trotter1", canary=True), modules=MODS,
                      canary=True, group="canary"))
     out.append(Shape("canary/iqpe/off-by-one", h_iqpe, dict(fam="Z0", k=2, m=2, ukind="circuit-all", canary=True), modules=MODS,
